@@ -1,6 +1,6 @@
 """C17 — dependency cycles are always diagnosed, and only real ones (DESIGN 5.17)."""
 from facts import AnalysisBroken
-from model import (ret_value_class, dstr, strip, fact_holds, mentions_field, mentions_call, mentions_var,
+from model import (path_value, norm_cond, ret_value_class, dstr, strip, fact_holds, mentions_field, mentions_call, mentions_var,
                    mentions_enum, const_value, walk)
 from props.scan_common import check_build_exit_codes
 from rules import (absent_from, guarded, calls_to, field_writes, who_may_call, must_pass, dominated_by,
@@ -221,7 +221,31 @@ def run(ctx):
                     [(lambda a: 'insert' in dstr(a) and 'second' in dstr(a), False)],
                     'the walk descends through every output unless it is already in the visited set',
                     'Unmark:descent-pruned')
-    ctx.floor('C17.O2', 6)
+    # the same obligation across two builds in one process: when the manifest-regeneration build really ran commands,
+    # the State it leaves behind (marks VisitDone, deps loaded, dirty flags) is reset before the real build scans again -
+    # every return of RebuildManifest that says "go on with this State" after a successful Build() passes State::Reset
+    rm = prog.fn('NinjaMain::RebuildManifest')
+    nrm = 0
+    for bid, b in rm.blocks.items():
+        for i, s2 in enumerate(b['succ']):
+            efs = rm.edge_facts(bid, i)
+            if s2 is None or not any(pol is True and mentions_call(atom, 'Builder::Build') and mentions_enum(atom, 'ExitSuccess')
+                                     for k, pol, atom in efs):
+                continue
+            nrm += 1
+
+            def goes_on(e, facts):
+                if path_value(rm, e.get('e'), facts) == 1:
+                    return False
+                at, pol = norm_cond(prog, e.get('e'))
+                return (dstr(at), pol) not in facts
+            r = rm.find_path(None, lambda x: x['k'] == 'ret', from_succ=s2, init_facts=frozenset((k, pol) for k, pol, atom in efs),
+                             is_blocker=lambda x: x['k'] == 'call' and x.get('name') == 'State::Reset', hit_ok=goes_on)
+            ctx.check('C17.O2', r is None, rm.name, 'RebuildManifest:state-not-reset', rm.where(r[1]) if r else rm.loc,
+                      'after the regeneration build ran, RebuildManifest lets the real build start only from a reset State',
+                      witness=None if r is None else {'blocks': r[0]})
+    ctx.check('C17.O2', nrm >= 1, rm.name, 'RebuildManifest:build-result-untested', rm.loc, 'RebuildManifest tests the result of Build()')
+    ctx.floor('C17.O2', 8)
 
     # ---- O3: outputs added by a dyndep load get their consumers re-scanned ------------------------
     R('C17.O3', 'O', 'a dyndep load performed by the scan machinery can give an edge new outputs; '
